@@ -13,11 +13,15 @@
 (*       -> Authenticated | Failed(closed)                                 *)
 (* Every client action consumes the reply to its previous request and      *)
 (* writes the next request (the client is sequential).  Environment        *)
-(* (broker): advertises the SaslHandshake version range (hvmax), accepts   *)
-(* or rejects the mechanism, runs the mechanism (PLAIN: one round; SCRAM:  *)
-(* two rounds) and, at the configured step, may instead answer an error    *)
-(* code, send a malformed message, send a wrong nonce / server signature,  *)
-(* or close the connection.                                                *)
+(* (broker): advertises the SaslHandshake version range in its ApiVersions *)
+(* response (hsadv: entry absent, 0..0, 0..1 or 1..1; an absent entry      *)
+(* means version 0 to the client, it never means "no authentication"),     *)
+(* accepts or rejects the mechanism, runs the mechanism (PLAIN: one round; *)
+(* SCRAM: two rounds) and, at the configured step, may instead answer an   *)
+(* error code (fcode: 33 / 34 / 58 or -1, UNKNOWN_SERVER_ERROR, the only   *)
+(* negative code of the protocol; the client treats ANY non-zero code as   *)
+(* a failure), send a malformed message, send a wrong nonce / server       *)
+(* signature, or close the connection.                                     *)
 (*                                                                         *)
 (* Observable variables (the only ones the C18 invariants read, so that    *)
 (* the same invariants are evaluated on journals recorded from real dials):*)
@@ -34,7 +38,14 @@ CredKinds  == {"right", "wrongPassword", "unknownUser"}
 FaultKinds == {"none", "unsupported", "error", "malformed", "badproof", "close"}
 PreAuthApis == {"ApiVersions", "SaslHandshake", "SaslAuthenticate", "RawSaslToken"}
 UseApis    == {"Metadata", "ListOffsets"}
-Bugs       == {"none", "skipAuthV0", "useBeforeAuth", "ignoreAuthErr", "noClose", "framedV0", "sendAfterFail"}
+Bugs       == {"none", "skipAuthV0", "useBeforeAuth", "ignoreAuthErr", "noClose", "framedV0", "sendAfterFail",
+               "skipAuthAbsent", "negCodeOK"}
+\* what the ApiVersions response says about SaslHandshake (key 17): no entry, 0..0, 0..1, 1..1
+HsAdvs     == {"absent", "v0", "v0v1", "v1"}
+\* the handshake version a correct client negotiates: the highest one both sides know; no entry means version 0
+AdvMax(a)  == IF a \in {"absent", "v0"} THEN 0 ELSE 1
+\* error codes a broker answers a failed step with (0: the step is not answered with an injected code)
+ErrCodes   == {0, 33, 34, 58, -1}
 
 Rounds(m) == IF m = "PLAIN" THEN 1 ELSE 2
 
@@ -49,9 +60,18 @@ FaultOK(m, k, s) ==
     [] k = "badproof"    -> m # "PLAIN" /\ s \in 1 .. 2
     [] OTHER             -> FALSE
 
+\* the code of an injected "error": 33 (UnsupportedSASLMechanism), 34 (IllegalSASLState) or -1 (UnknownServerError) at the
+\* handshake; 58 (SASLAuthenticationFailed), 34 or -1 at an authenticate round.  After a v0 handshake no frame carries a
+\* code (the broker just closes), so a single representative is kept there.
+CodeOK(a, k, s, code) ==
+  IF k # "error" THEN code = 0
+  ELSE IF s = 0 THEN code \in {33, 34, -1}
+  ELSE IF AdvMax(a) = 0 THEN code = 58
+  ELSE code \in {58, 34, -1}
+
 Configs ==
-  { r \in [mech : Mechs, hvmax : 0 .. 1, creds : CredKinds, fkind : FaultKinds, fstep : 0 .. 2, attr : BOOLEAN] :
-      FaultOK(r.mech, r.fkind, r.fstep) }
+  { r \in [mech : Mechs, hsadv : HsAdvs, creds : CredKinds, fkind : FaultKinds, fstep : 0 .. 2, fcode : ErrCodes, attr : BOOLEAN] :
+      FaultOK(r.mech, r.fkind, r.fstep) /\ CodeOK(r.hsadv, r.fkind, r.fstep, r.fcode) }
 
 VARIABLES
   cfg,         \* cfg[c]: scenario of the connection (mechanism, advertised version, credentials, fault, attr)
@@ -103,6 +123,17 @@ CredsFailAt(c, i) ==
   \/ cfg[c].mech = "PLAIN" /\ i = 1 /\ cfg[c].creds # "right"
   \/ cfg[c].mech # "PLAIN" /\ i = 1 /\ cfg[c].creds = "unknownUser"
   \/ cfg[c].mech # "PLAIN" /\ i = 2 /\ cfg[c].creds = "wrongPassword"
+
+\* the error code carried by the answer to the handshake / to authenticate round i (0: the answer is not an error)
+HsCode(c) ==
+  IF FaultAt(c, 0) = "error" THEN cfg[c].fcode ELSE IF cfg[c].fkind = "unsupported" THEN 33 ELSE 0
+AuthCode(c, i) ==
+  IF FaultAt(c, i) = "error" THEN cfg[c].fcode ELSE IF CredsFailAt(c, i) THEN 58 ELSE 0
+\* the code of the error reply the client is looking at
+ReplyCode(c) ==
+  CASE s2c[c] = "hsErr"   -> HsCode(c)
+    [] s2c[c] = "authErr" -> AuthCode(c, round[c])
+    [] OTHER              -> 0
 
 Fail(c)      == failAt' = [failAt EXCEPT ![c] = IF @ < 0 THEN Len(sent[c]) ELSE @]
 Reply(c, m)  == s2c' = [s2c EXCEPT ![c] = m] /\ c2s' = [c2s EXCEPT ![c] = "none"]
@@ -170,10 +201,11 @@ Start(c) ==
   /\ cst' = [cst EXCEPT ![c] = "VersionsAsked"]
   /\ UNCHANGED <<cfg, hv, authAt, failAt, closed, dialResult, fin, round, srvClosed, uses>>
 
-\* the negotiated handshake version is the highest one both sides know: min(1, hvmax) = hvmax
+\* the negotiated handshake version is the highest one both sides know; the handshake is sent whatever the
+\* ApiVersions response says about it (an absent entry negotiates version 0)
 OnVersions(c) ==
   /\ cst[c] = "VersionsAsked" /\ s2c[c] = "versions"
-  /\ hv' = [hv EXCEPT ![c] = cfg[c].hvmax]
+  /\ hv' = [hv EXCEPT ![c] = AdvMax(cfg[c].hsadv)]
   /\ Send(c, "SaslHandshake", "req", "SaslHandshake")
   /\ cst' = [cst EXCEPT ![c] = "HandshakeSent"]
   /\ UNCHANGED <<cfg, authAt, failAt, closed, dialResult, fin, round, srvClosed, uses>>
@@ -200,6 +232,8 @@ Accepted(c) ==
   /\ cst[c] = "AuthSent"
   /\ \/ s2c[c] = "authOK"
      \/ Bug = "ignoreAuthErr" /\ s2c[c] = "authErr" /\ round[c] = Rounds(cfg[c].mech)
+     \* "error code > 0" instead of "error code # 0": UNKNOWN_SERVER_ERROR (-1) passes for success
+     \/ Bug = "negCodeOK" /\ s2c[c] = "authErr" /\ ReplyCode(c) < 0 /\ round[c] = Rounds(cfg[c].mech)
 
 FailReplies == {"hsErr", "garbled", "authErr", "tampered", "eof"}
 SeesFailure(c) ==
@@ -260,7 +294,10 @@ End(c) ==
 (***************************************************************************)
 \* the dial returns the connection without authenticating when the handshake version is 0
 BugSkipAuthV0(c) ==
-  /\ Bug = "skipAuthV0" /\ cst[c] = "VersionsAsked" /\ s2c[c] = "versions" /\ cfg[c].hvmax = 0
+  /\ \/ Bug = "skipAuthV0" /\ AdvMax(cfg[c].hsadv) = 0
+     \* "authenticate only if the broker lists the SaslHandshake API"
+     \/ Bug = "skipAuthAbsent" /\ cfg[c].hsadv = "absent"
+  /\ cst[c] = "VersionsAsked" /\ s2c[c] = "versions"
   /\ dialResult' = [dialResult EXCEPT ![c] = "ok"]
   /\ cst' = [cst EXCEPT ![c] = "Authenticated"]
   /\ s2c' = [s2c EXCEPT ![c] = "none"]
@@ -288,7 +325,15 @@ BugSendAfterFail(c) ==
   /\ cst' = [cst EXCEPT ![c] = "Failed"]
   /\ UNCHANGED <<cfg, hv, authAt, failAt, dialResult, fin, round, c2s, s2c, srvClosed, uses>>
 
-BugNext(c) == BugSkipAuthV0(c) \/ BugUseBeforeAuth(c) \/ BugNoClose(c) \/ BugSendAfterFail(c)
+\* a handshake answered with a negative error code passes for accepted: the authentication bytes follow
+BugNegCodeHandshake(c) ==
+  /\ Bug = "negCodeOK" /\ cst[c] = "HandshakeSent" /\ s2c[c] = "hsErr" /\ ReplyCode(c) < 0
+  /\ round' = [round EXCEPT ![c] = 1]
+  /\ SendAuth(c)
+  /\ cst' = [cst EXCEPT ![c] = "AuthSent"]
+  /\ UNCHANGED <<cfg, hv, authAt, failAt, closed, dialResult, fin, srvClosed, uses>>
+
+BugNext(c) == BugSkipAuthV0(c) \/ BugUseBeforeAuth(c) \/ BugNoClose(c) \/ BugSendAfterFail(c) \/ BugNegCodeHandshake(c)
 
 ClientNext(c) ==
   \/ Start(c) \/ OnVersions(c) \/ OnHandshakeOK(c) \/ OnAuthCont(c)
